@@ -28,6 +28,10 @@ PROPS = {
               "the round trip (C05_roundtrip) is over Coq's reals with the standard sqrt; the action/orthonormality/composition theorems hold over any field with decidable equality",
               "a Basis3 is modelled by its matrix (the struct has that single private field)"],
              trusted=["rustc monomorphisation of the generic code at Xq"]),
+    "C06": P(6, axioms=R_AXIOMS, assumptions=["model (coq/Model/Rotation.v, Quaternion.v) is hand-written; tied to /repo by the exact-arithmetic correspondence of this run",
+              "sin/cos are oracles of the scalar type: arbitrary symbols in the field theorems, Coq's real sin/cos in the R theorems, exact rational values of lattice angles in the correspondence",
+              "Deg angles go through the f64 constant pi/180 exactly as the code does (UDeg); the R theorems hold for any unit U"],
+             trusted=["rustc monomorphisation of the generic code at Xq"]),
     "C08": P(8, assumptions=["model (coq/Model/Transform.v) is hand-written; tied to /repo by the exact-arithmetic correspondence of this run",
               "Decomposed theorems are stated for valid rotations (unit quaternions, orthonormal bases), proved to satisfy RotLaws3/RotLaws2",
               "matrix Transform laws are stated for affine matrices (the documented domain of Transform); Matrix3 as a 3-D transform: all matrices",
